@@ -130,6 +130,9 @@ impl ScriptedModulator {
 #[async_trait::async_trait]
 impl narwhal_modulator::Modulator for ScriptedModulator {
   async fn protocol_name(&self) -> anyhow::Result<StringAtom> {
+    if self.unreachable() {
+      anyhow::bail!("modulator unreachable (scripted)");
+    }
     Ok(self.script.lock().unwrap().protocol.as_str().into())
   }
   async fn operations(&self) -> anyhow::Result<Operations> {
@@ -141,6 +144,9 @@ impl narwhal_modulator::Modulator for ScriptedModulator {
   async fn authenticate(&self, r: AuthRequest) -> anyhow::Result<AuthResponse> {
     if !self.gate(format!("auth {}", r.token)).await {
       anyhow::bail!("modulator call failed (latency script)");
+    }
+    if self.unreachable() {
+      anyhow::bail!("modulator unreachable (scripted)");
     }
     let a = {
       let mut s = self.script.lock().unwrap();
@@ -214,6 +220,9 @@ impl narwhal_modulator::Modulator for ScriptedModulator {
   async fn send_private_payload(&self, r: SendPrivatePayloadRequest) -> anyhow::Result<SendPrivatePayloadResponse> {
     if !self.gate(format!("direct {}", r.from)).await {
       anyhow::bail!("modulator call failed (latency script)");
+    }
+    if self.unreachable() {
+      anyhow::bail!("modulator unreachable (scripted)");
     }
     let d = {
       let mut s = self.script.lock().unwrap();
